@@ -40,6 +40,9 @@ type Program struct {
 	cache  map[string]any // per-program memo of expensive analyses
 	// NormLog: what the normalising inliner did before the rules ran
 	NormLog []string
+	// anchors found in another package than the inventory says (movedFunc)
+	moved    map[string]*ssa.Function
+	MovedLog []string
 }
 
 // BrokenError marks a failure of the machinery itself (unresolved anchor,
@@ -329,6 +332,9 @@ func (p *Program) FuncOpt(path, name string) *ssa.Function {
 func (p *Program) Func(path, name string) *ssa.Function {
 	fn := p.FuncOpt(path, name)
 	if fn == nil {
+		fn = p.movedFunc(path, "", name)
+	}
+	if fn == nil {
 		broken("anchor: function %s.%s not found", path, name)
 	}
 	return fn
@@ -358,6 +364,9 @@ func (p *Program) MethodOpt(path, typ, name string) *ssa.Function {
 func (p *Program) Method(path, typ, name string) *ssa.Function {
 	fn := p.MethodOpt(path, typ, name)
 	if fn == nil {
+		fn = p.movedFunc(path, typ, name)
+	}
+	if fn == nil {
 		broken("anchor: method %s.%s.%s not found", path, typ, name)
 	}
 	return fn
@@ -365,6 +374,11 @@ func (p *Program) Method(path, typ, name string) *ssa.Function {
 
 func (p *Program) NamedType(path, typ string) *types.Named {
 	obj := p.Package(path).Types.Scope().Lookup(typ)
+	if obj == nil {
+		if n := p.movedType(path, typ); n != nil {
+			return n
+		}
+	}
 	if obj == nil {
 		broken("anchor: type %s.%s not found", path, typ)
 	}
@@ -540,4 +554,94 @@ func objFullName(f *types.Func) string {
 		return "<dynamic>"
 	}
 	return f.FullName()
+}
+
+// --- anchors that moved to another package -----------------------------------
+//
+// A function, method or type of the inventory that is gone from its package
+// and that exists, under the same name (the first letter in either case), as
+// a NEW declaration of another package of the module is that anchor moved
+// (`object.Object.GetMarkup` -> `pub.getMarkup(o object.Object, …)`). A method
+// is looked for as a function whose first parameter has the former receiver's
+// type. Exactly one candidate, or the anchor stays missing.
+
+func sameNameEitherCase(a, b string) bool {
+	if a == b {
+		return true
+	}
+	if a == "" || b == "" || a[1:] != b[1:] {
+		return false
+	}
+	return strings.EqualFold(a[:1], b[:1])
+}
+
+func (p *Program) movedFunc(path, typ, name string) *ssa.Function {
+	key := path + "." + name
+	if typ != "" {
+		key = path + ".(" + typ + ")." + name
+	}
+	if fn, ok := p.moved[key]; ok {
+		return fn
+	}
+	var found []*ssa.Function
+	for ppath, pkg := range p.ByPath {
+		if !isServitorPath(ppath) {
+			continue
+		}
+		sp := p.SSA.Package(pkg.Types)
+		if sp == nil {
+			continue
+		}
+		for _, m := range sp.Members {
+			fn, ok := m.(*ssa.Function)
+			if !ok || !sameNameEitherCase(fn.Name(), name) || anchorFuncs[ppath+"."+fn.Name()] || fn.Signature.Recv() != nil {
+				continue
+			}
+			if typ != "" {
+				if len(fn.Params) == 0 {
+					continue
+				}
+				n := namedOf(fn.Params[0].Type())
+				if n == nil || n.Obj().Pkg() == nil || n.Obj().Pkg().Path() != path || n.Obj().Name() != typ {
+					continue
+				}
+			} else if ppath == path {
+				continue
+			}
+			found = append(found, fn)
+		}
+	}
+	var fn *ssa.Function
+	if len(found) == 1 {
+		fn = found[0]
+		p.MovedLog = append(p.MovedLog, "anchor "+key+" is now "+fn.String())
+	}
+	if p.moved == nil {
+		p.moved = map[string]*ssa.Function{}
+	}
+	p.moved[key] = fn
+	return fn
+}
+
+func (p *Program) movedType(path, typ string) *types.Named {
+	var found []*types.Named
+	for ppath, pkg := range p.ByPath {
+		if !isServitorPath(ppath) || ppath == path {
+			continue
+		}
+		for _, nm := range pkg.Types.Scope().Names() {
+			if !sameNameEitherCase(nm, typ) || anchorTypes[ppath+"."+nm] {
+				continue
+			}
+			if tn, ok := pkg.Types.Scope().Lookup(nm).(*types.TypeName); ok {
+				if n, ok := tn.Type().(*types.Named); ok {
+					found = append(found, n)
+				}
+			}
+		}
+	}
+	if len(found) == 1 {
+		return found[0]
+	}
+	return nil
 }
